@@ -349,11 +349,12 @@ def _close(a, b, rel=1e-12):
     return math.isclose(float(a), float(b), rel_tol=rel, abs_tol=1e-12)
 
 
-def inv_c08(tracks, differential=True):
+def inv_c08(tracks, differential=True, skip=()):
     seg = tracks.segmentation
     if seg is None:
         return []
     ann, keys = active_regionprops(tracks)
+    keys = [k for k in keys if k not in skip]
     if not keys:
         return []
     bad = []
